@@ -340,53 +340,57 @@ Inductive scanres :=
 | SLeaves (l : list pnode)     (* children of the top-level concatenation, in pattern order *)
 | SOutside.
 
-(* scanRegex (513) on the fragment.  acc = children added so far. *)
+(* scanRegex (513) on the fragment: one round of the outer loop.  acc = children added so far,
+   [rec] = the following rounds. *)
+Definition scan_body (rec : list Z -> list pnode -> res scanres) (o : Z) (p : list Z) (acc : list pnode)
+  : res scanres :=
+  match p with
+  | [] => Ok (SLeaves acc)
+  | _ =>
+      let p1 := scan_blank o p in
+      let '(run, p2) := take_run o p1 in
+      let p3 := scan_blank o p2 in
+      match p3 with
+      | [] => Ok (SLeaves (acc ++ add_to_concat o run))                    (* ch = '!' *)
+      | ch :: p4 =>
+          if negb (is_special ch)
+          then rec p3 (acc ++ add_to_concat o run)                          (* ch = ' ' *)
+          else
+            (* isQuant = isQuantifier(ch): the run loses its last character to the unit *)
+            let acc' := if is_quantifier ch
+                        then match run with
+                             | [] => acc
+                             | _ => acc ++ add_to_concat o (removelast run)
+                             end
+                        else acc ++ add_to_concat o run in
+            if ch =? 92 then
+              do r <- scan_backslash o false p4 ;
+              match r with
+              | BOut => Ok SOutside
+              | BGot e p5 =>
+                  match node_of_esc o e with
+                  | None => Crash 4
+                  | Some n =>
+                      let p6 := scan_blank o p5 in
+                      if is_true_quantifier p6 then Ok SOutside
+                      else rec p6 (acc' ++ [n])                              (* addConcatenate *)
+                  end
+              end
+            else if (ch =? 123) && is_quantifier ch && negb (is_true_quantifier p3) then
+              (* only after x-mode blanks: case '{' with unit = One(last of run); moveLeft;
+                 isTrueQuantifier is false; addConcatenate *)
+              match run with
+              | [] => Ok SOutside      (* unreachable: the run loop would have taken the '{' *)
+              | _ => rec p3 (acc' ++ [mk_one o (last run 0)])
+              end
+            else Ok SOutside
+      end
+  end.
+
 Fixpoint scan_loop (fuel : nat) (o : Z) (p : list Z) (acc : list pnode) : res scanres :=
   match fuel with
   | O => Fuel
-  | S f =>
-      match p with
-      | [] => Ok (SLeaves acc)
-      | _ =>
-          let p1 := scan_blank o p in
-          let '(run, p2) := take_run o p1 in
-          let p3 := scan_blank o p2 in
-          match p3 with
-          | [] => Ok (SLeaves (acc ++ add_to_concat o run))                    (* ch = '!' *)
-          | ch :: p4 =>
-              if negb (is_special ch)
-              then scan_loop f o p3 (acc ++ add_to_concat o run)                (* ch = ' ' *)
-              else
-                (* isQuant = isQuantifier(ch): the run loses its last character to the unit *)
-                let acc' := if is_quantifier ch
-                            then match run with
-                                 | [] => acc
-                                 | _ => acc ++ add_to_concat o (removelast run)
-                                 end
-                            else acc ++ add_to_concat o run in
-                if ch =? 92 then
-                  do r <- scan_backslash o false p4 ;
-                  match r with
-                  | BOut => Ok SOutside
-                  | BGot e p5 =>
-                      match node_of_esc o e with
-                      | None => Crash 4
-                      | Some n =>
-                          let p6 := scan_blank o p5 in
-                          if is_true_quantifier p6 then Ok SOutside
-                          else scan_loop f o p6 (acc' ++ [n])                    (* addConcatenate *)
-                      end
-                  end
-                else if (ch =? 123) && is_quantifier ch && negb (is_true_quantifier p3) then
-                  (* only after x-mode blanks: case '{' with unit = One(last of run); moveLeft;
-                     isTrueQuantifier is false; addConcatenate *)
-                  match run with
-                  | [] => Ok SOutside      (* unreachable: the run loop would have taken the '{' *)
-                  | _ => scan_loop f o p3 (acc' ++ [mk_one o (last run 0)])
-                  end
-                else Ok SOutside
-          end
-      end
+  | S f => scan_body (scan_loop f o) o p acc
   end.
 
 (* countCaptures (380) on the fragment: true = the pre-scan never stood on '(' '[' ')' nor saw
@@ -394,28 +398,29 @@ Fixpoint scan_loop (fuel : nat) (o : Z) (p : list Z) (acc : list pnode) : res sc
    scanBackslash are ignored by the Go code and it resumes wherever the cursor was left; the
    model does not track that position: it answers true only if no '(' '[' ')' follows at all. *)
 Definition is_paren (ch : Z) : bool := (ch =? 40) || (ch =? 41) || (ch =? 91).
+Definition prepass_body (rec : list Z -> res bool) (o : Z) (p : list Z) : res bool :=
+  match p with
+  | [] => Ok true
+  | ch :: p' =>
+      if ch =? 92 then
+        match p' with
+        | [] => Ok true
+        | _ => match scan_backslash o true p' with
+               | Ok (BGot _ rest) => rec rest
+               | Ok BOut => Ok false
+               | Err _ => Ok (negb (existsb is_paren p'))
+               | Crash w => Crash w
+               | Fuel => Fuel
+               end
+        end
+      else if (ch =? 35) && useX o then rec (scan_blank o p)
+      else if is_paren ch then Ok false
+      else rec p'
+  end.
 Fixpoint prepass (fuel : nat) (o : Z) (p : list Z) : res bool :=
   match fuel with
   | O => Fuel
-  | S f =>
-      match p with
-      | [] => Ok true
-      | ch :: p' =>
-          if ch =? 92 then
-            match p' with
-            | [] => Ok true
-            | _ => match scan_backslash o true p' with
-                   | Ok (BGot _ rest) => prepass f o rest
-                   | Ok BOut => Ok false
-                   | Err _ => Ok (negb (existsb is_paren p'))
-                   | Crash w => Crash w
-                   | Fuel => Fuel
-                   end
-            end
-          else if (ch =? 35) && useX o then prepass f o (scan_blank o p)
-          else if is_paren ch then Ok false
-          else prepass f o p'
-      end
+  | S f => prepass_body (prepass f o) o p
   end.
 
 (* reduceConcatenationWithAdjacentLoops (1523) on the node kinds of the fragment: equal adjacent
